@@ -9,8 +9,6 @@ Nothing in this file imports the code under test.  A flow case is JSON:
 All functions below are pure functions of that data.
 """
 
-import os
-
 from .. import gen, ref
 
 ROLES = ("cache", "remote")
@@ -113,28 +111,40 @@ class Model:
         for k in self.tracked:
             if self.res[k]["cache"] is None or self.res[k]["remote"] is None:
                 return f"tracked entry {k} lacks a cache or a remote"
-        # one cache per remote store: every prefix (and so every entry) that resolves to remote r
-        # resolves to the same cache (collection groups per remote store and carries one cache along)
-        cacheof = {}
         for p in keys:
             r = resolve(self.prefixes, p)[1]
-            if r["remote"] is None:
-                continue
-            if r["cache"] is None:
+            if r["remote"] is not None and r["cache"] is None:
                 return "a prefix has a remote but no cache"
-            if cacheof.setdefault(r["remote"], r["cache"]) != r["cache"] and not os.environ.get("VERIF_C18_WIDE"):
-                # VERIF_C18_WIDE=1 lifts this restriction (diagnostic only: see ASSUMPTIONS of c18.py)
-                return "one remote store paired with two caches"
         return None
 
     # ---- derived sets ----------------------------------------------------------------------
-    def cacheof(self):
-        out = {}
+    def prefix_res(self):
+        """[(prefix key, cache, remote)] for every prefix that resolves to a remote (and hence a cache)."""
+        out = []
         for p in self.prefixes:
             r = resolve(self.prefixes, p["key"])[1]
             if r["remote"] is not None:
-                out[r["remote"]] = r["cache"]
+                out.append((tuple(p["key"]), r["cache"], r["remote"]))
         return out
+
+    def caches_of_remote(self):
+        out = {}
+        for _k, c, r in self.prefix_res():
+            out.setdefault(r, set()).add(c)
+        return out
+
+    def shaped_remotes(self):
+        """Remote stores paired with >= 2 distinct caches across the prefixes that resolve to them."""
+        return {r for r, cs in self.caches_of_remote().items() if len(cs) >= 2}
+
+    def involved_keys(self):
+        """Tracked keys lying under a prefix that resolves to a shaped remote."""
+        sh = self.shaped_remotes()
+        return {k for k in self.tracked for pk, _c, r in self.prefix_res() if r in sh and is_prefix(pk, k)}
+
+    def cacheof(self):
+        """{remote: its one cache} for the remotes paired with a single cache."""
+        return {r: next(iter(cs)) for r, cs in self.caches_of_remote().items() if len(cs) == 1}
 
     def designated(self, role):
         """{store index: set(oids)}: the objects the mapping designates to each store of `role`."""
